@@ -55,6 +55,23 @@ def shapeObl (θ : Subst) (decl : List (Sym × List Expr)) : List FnArg → List
   | _ :: fs, _ :: as => shapeObl θ decl fs as
   | _, _ => []
 
+/-- a window actual must lie inside the caller's buffer (`evalView` checks it when the call binds
+    its arguments): `0 ≤ p < d` for a point, `0 ≤ lo ≤ hi ≤ d` for an interval -/
+def winBoundsObl : List WAcc → List Expr → List Expr
+  | [], [] => []
+  | .point p :: as, d :: ds =>
+      .binop .le (.lit (.int 0)) p :: .binop .lt p d :: winBoundsObl as ds
+  | .interval lo hi :: as, d :: ds =>
+      .binop .le (.lit (.int 0)) lo :: .binop .le lo hi :: .binop .le hi d :: winBoundsObl as ds
+  | _, _ => [.lit (.bool false)]
+
+def boundsObl (decl : List (Sym × List Expr)) : List Expr → List Expr
+  | [] => []
+  | .win y w :: as => (match lookupSym y decl with
+      | some dsh => winBoundsObl w dsh
+      | none => []) ++ boundsObl decl as
+  | _ :: as => boundsObl decl as
+
 def predObl (θ : Subst) : List Expr → List Expr
   | [] => []
   | p :: ps => orFalse (substC θ p) :: predObl θ ps
@@ -63,7 +80,8 @@ def predObl (θ : Subst) : List Expr → List Expr
     declared, the callee's assertions — all instantiated at the call, over the caller's names -/
 def predsObligationsD (decl : List (Sym × List Expr)) (f : Proc) (args : List Expr) : List Expr :=
   match mkSubst f.args args [] with
-  | some θ => sizeObl f.args args ++ shapeObl θ decl f.args args ++ predObl θ f.preds
+  | some θ => sizeObl f.args args ++ boundsObl decl args ++ shapeObl θ decl f.args args ++
+      predObl θ f.preds
   | none => [.lit (.bool false)]
 
 /-- (`blk` is not needed to state them; kept for the interface) -/
@@ -88,17 +106,30 @@ def distinctSyms : List Sym → Bool
 def formalsFresh (xs : List Sym) (args : List Expr) : Bool :=
   xs.all (fun x => args.all (fun a => !mentionsE x a))
 
-/-- what `inline_correct` needs: formals pairwise distinct and not mentioned by the actuals, no
-    actual reads the configuration, and the inliner's own output passes the matcher (this holds
-    when the names the callee binds — loop variables, allocations, windows — are not mentioned by
-    the actuals and are not rebound in their own scope; it is evaluated, not assumed) -/
+mutual
+/-- every name the statement binds is, at its binding site, not mentioned by anything in scope
+    (actuals of the call, enclosing binders); the result is the scope for the next statement -/
+def bindersFreshS (θ : Subst) : Stmt → Option Subst
+  | .ite _ t e => if bindersFreshL θ t && bindersFreshL θ e then some θ else none
+  | .loop i _ _ body _ =>
+      if fresh i θ && bindersFreshL ((i, .ctrl (.read i [])) :: θ) body then some θ else none
+  | .alloc x _ => if fresh x θ then some ((x, .buf x none) :: θ) else none
+  | .window x _ => if fresh x θ then some ((x, .buf x none) :: θ) else none
+  | _ => some θ
+def bindersFreshL (θ : Subst) : List Stmt → Bool
+  | [] => true
+  | s :: r => match bindersFreshS θ s with
+      | some θ' => bindersFreshL θ' r
+      | none => false
+end
+
+/-- what `inline_correct_partial` needs: formals pairwise distinct and not mentioned by the
+    actuals, no actual reads the configuration, the body lies in the fragment `inline` covers
+    (no nested calls), and every name bound in the body is fresh where it is bound -/
 def inlineWf (f : Proc) (args : List Expr) : Bool :=
   distinctSyms (formalNames f.args) && formalsFresh (formalNames f.args) args &&
   (match inlineBind f.args args [] [] with
-   | some (θ, _) => pureSubst θ && !hasWin θ &&
-      (match substL θ f.body with
-       | some body => (matchL θ f.body body).isSome
-       | none => false)
+   | some (θ, _) => pureSubst θ && !hasWin θ && (substL θ f.body).isSome && bindersFreshL θ f.body
    | none => false)
 
 /-! ### diagnosis (not part of any theorem) -/
